@@ -157,13 +157,15 @@ type offerTracker struct {
 	received        map[string][]byte
 	stalledSince    []time.Duration          // establishment times of inbound streams the puppet stalls
 	noListenAt      []time.Duration          // when an offer was accepted without any listener behind the connection id
+	bigStallAt      []time.Duration          // establishment times of outbound streams of a 3 MB item that the puppet never reads
+	bigKeys         map[string]bool          // content keys of 3 MB items
 	pendingDial     map[uint16]time.Duration // accepted offers whose stream the offerer has not established yet (by connection id)
 	now             func() time.Duration
 	outcomes        map[string]int
 }
 
 func newOfferTracker() *offerTracker {
-	return &offerTracker{received: map[string][]byte{}, outcomes: map[string]int{}, pendingDial: map[uint16]time.Duration{}}
+	return &offerTracker{received: map[string][]byte{}, outcomes: map[string]int{}, pendingDial: map[uint16]time.Duration{}, bigKeys: map[string]bool{}}
 }
 
 // serveOffer implements the puppet side of an OFFER it received, according to outcome.
@@ -198,7 +200,8 @@ func (p *puppet) serveOffer(w *world, tr *offerTracker, myVers, peerVers []uint8
 		if tr.now != nil {
 			tr.noListenAt = append(tr.noListenAt, tr.now())
 		}
-		return encAccept(ver, 4242, all)
+		// a fresh id each time: a second dial of an id that is still being dialled is refused at once
+		return encAccept(ver, uint16(4242+7*len(tr.noListenAt)), all)
 	}
 	cid := p.utp.CidWithAddr(from, addr, false)
 	if tr.now != nil {
@@ -221,6 +224,9 @@ func (p *puppet) serveOffer(w *world, tr *offerTracker, myVers, peerVers []uint8
 		case osAcceptCloseEarly:
 			st.Close()
 		case osAcceptStall:
+			if tr.now != nil && len(keys) > 0 && tr.bigKeys[string(keys[0])] {
+				tr.bigStallAt = append(tr.bigStallAt, tr.now())
+			}
 			time.Sleep(90 * time.Second)
 			st.Close()
 		default:
